@@ -520,7 +520,7 @@ func runC18(t *testing.T, propName, testName string) {
 		if regAVS > 0 {
 			st.Labels["export-with-avs-registered-through-precompile"]++
 		}
-		wideTok, tokDeposit, tokDelegated := false, false, false
+		wideTok, tokDeposit, tokDelegated, nstNew := false, false, false, false
 		for i, a := range m.Log {
 			if i < len(m.Outs) && m.Outs[i].OK {
 				if a.Kind == "regToken" && a.Lz >= 103 {
@@ -531,6 +531,9 @@ func runC18(t *testing.T, propName, testName string) {
 					if a.Mode == 1 {
 						tokDelegated = true
 					}
+					if a.Neg && a.Mode == 0 {
+						nstNew = true
+					}
 				}
 			}
 		}
@@ -539,6 +542,9 @@ func runC18(t *testing.T, propName, testName string) {
 		}
 		if tokDeposit {
 			st.Labels["export-with-deposit-of-a-token-registered-during-the-history"]++
+		}
+		if nstNew {
+			st.Labels["export-with-native-restaking-deposit-on-a-chain-added-during-the-history"]++
 		}
 		if tokDelegated {
 			st.Labels["export-with-delegation-of-a-token-registered-during-the-history"]++
